@@ -697,6 +697,15 @@ def specials(depth_family=False, enc_family=False, big_family=False):
                  "\tft_putstr(\"a\"\n\t\t\"b\");\n\t(*p)(a);\n\treturn (ft_x(a, b) + 3);\n")
     # a member spelt like a keyword after `call(...)->`, and the ordinary form, in separate files (state that is used up by the first
     # such statement of a process shows only when the two are analysed one after the other)
+    # header dates that do not exist, or exist twice, on some wall clocks (daylight-saving gaps and overlaps, a leap day, the epoch):
+    # whatever a rule computes from them may not depend on the zone the process runs in
+    for k, (cr, up) in enumerate((("2021/03/28 02:45:00", "2021/03/28 03:10:00"), ("2021/03/14 02:30:00", "2021/03/14 03:05:00"),
+                                  ("2021/10/31 02:30:00", "2021/10/31 02:10:00"), ("2024/02/29 23:59:59", "2024/03/01 00:00:00"),
+                                  ("1970/01/01 00:00:00", "1969/12/31 23:59:59"), ("2038/01/19 03:14:08", "2038/01/19 03:14:07"))):
+        body = "\nint\tmain(void)\n{\n\treturn (0);\n}\n"
+        out.append((f"hdr_date{k}.c", header42(f"hdr_date{k}.c", created=cr, updated=up) + body, "clean"))
+    out.append(("zoo_badlex3.c", ok_func("zoo_badlex3.c", body="\ta = 1;$\n\tb = 2;@\n\tc = 3;`\n\treturn (0);\n"), "zoo"))
+    out.append(("zoo_badlex3.h", H("zoo_badlex3.h") + "\n#ifndef ZOO_BADLEX3_H\n# define ZOO_BADLEX3_H\n\nint\tft_a(void);$\nint\tft_b(void);@\n\n#endif\n", "zoo"))
     out.append(("zoo_vla.c", H("zoo_vla.c") + "\nint\tft_sum(int n)\n{\n\tint\ttab[n];\n\tchar\tbuf[n + 1][2 * n];\n\n\ttab[0] = n;\n\tbuf[0][0] = 0;\n\treturn (tab[0]);\n}\n", "zoo"))
     out.append(("zoo_member.c", ok_func("zoo_member.c", body="\tft_last(l)->default = b && c;\n\treturn (0);\n"), "zoo"))
     out.append(("zoo_member2.c", ok_func("zoo_member2.c", body="\tft_last(l)->next = 0;\n\tl->int = a;\n\treturn (0);\n"), "zoo"))
@@ -765,6 +774,12 @@ def specials(depth_family=False, enc_family=False, big_family=False):
         out.append(("stress_diags1200.c", H("stress_diags1200.c") + "\n" + "".join(f"int g_v{k:04d};\n" for k in range(600)), "stress"))
         out.append(("stress_diags2500.h", H("stress_diags2500.h") + "\n#ifndef STRESS_DIAGS2500_H\n# define STRESS_DIAGS2500_H\n\n"
                     + "".join(f"int ft_f{k:04d}(int a,int b) ;\n" for k in range(500)) + "\n#endif\n", "stress"))
+    if big_family:
+        # a line wider than 65 535 columns with diagnostics beyond that column and on the next line (a packed or truncated
+        # position shows only here)
+        wide = "x" * 70000
+        out.append(("stress_wide70000.c", H("stress_wide70000.c") + "\nchar\t*g_s = \"" + wide + "\"+1;\nint g_a ;\nint g_b ;\n", "stress"))
+        out.append(("stress_wide70000b.c", ok_func("stress_wide70000b.c", body="\treturn (\"" + wide + "\"[0] +1);\n") + "int g_a ;\n", "stress"))
     if enc_family:
         # files in a legacy 8-bit encoding (a lone surrogate in the scenario text is one raw byte on the simulated disk) and
         # UTF-8 files whose non-ASCII characters sit where columns matter: what a decoder remembered across files would shift
